@@ -3722,7 +3722,12 @@ pub fn run_focus(args: &Args, focus: Focus) -> i32 {
     let mdim_cases = args.extra_usize("mdim-cases", 60) as u64;
     let stdlib_cases = args.extra_usize("stdlib-cases", if focus == Focus::C03 { 120 } else { 30 }) as u64;
     let debug_cases = args.extra_usize("debug-cases", if focus == Focus::C03 { 120 } else { 20 }) as u64;
+    let aoff_cases = args.extra_usize("aoff-cases", if focus == Focus::C02 { 120 } else { 20 }) as u64;
     for n in args.case_numbers() {
+        if n >= obs2::AOFF_BASE {
+            obs2::emit_aoff_case(&mut out, args.seed, n);
+            continue;
+        }
         if n >= obs2::DEBUG_BASE {
             obs2::emit_debug_case(&mut out, args.seed, n);
             continue;
@@ -3818,6 +3823,9 @@ pub fn run_focus(args: &Args, focus: Focus) -> i32 {
         }
         for i in 0..debug_cases {
             obs2::emit_debug_case(&mut out, args.seed, obs2::DEBUG_BASE + i);
+        }
+        for i in 0..aoff_cases {
+            obs2::emit_aoff_case(&mut out, args.seed, obs2::AOFF_BASE + i);
         }
     }
     out.finish(&args.out);
